@@ -215,7 +215,11 @@ func (c *conn) writev(bs [][]byte) (n int, err error) {
 	remaining := n
 	var sent int
 loop:
-	if sent, err = gio.Writev(c.fd, bs); err != nil {
+	iov := bs
+	if len(iov) > iovMax {
+		iov = iov[:iovMax]
+	}
+	if sent, err = gio.Writev(c.fd, iov); err != nil {
 		// A temporary error occurs, append the data to outbound buffer,
 		// writing it back to the remote in the next round for LT mode.
 		if err == unix.EAGAIN {
